@@ -295,4 +295,31 @@ def expectedInsecureTM (parse : Parse) (e : OtlpEnv) (opts : List UOpt) : Bool :
           | some b => b
           | none => false
 
+/-! ### the headers variables as the inverse of a serialiser
+
+`OTEL_EXPORTER_OTLP_[<SIGNAL>_]HEADERS` = `k1=v1,k2=v2,…`: split on `,`, cut at the first `=`, `TrimSpace` the name,
+check it is an HTTP token, `PathUnescape` the value, `TrimSpace` it. The serialiser below writes a pair list in that
+format, escaping in the value exactly the bytes the parser would otherwise interpret: `%`, `,` and ASCII white space. -/
+
+/-- the bytes a value must carry escaped -/
+def escSet : List UInt8 := [0x25, 0x2c, 0x20, 0x09, 0x0a, 0x0b, 0x0c, 0x0d]
+
+def hexDigit (n : Nat) : UInt8 := if n < 10 then UInt8.ofNat (48 + n) else UInt8.ofNat (55 + n)
+
+def escByte (b : UInt8) : Bytes :=
+  if escSet.contains b then [0x25, hexDigit (b.toNat / 16), hexDigit (b.toNat % 16)] else [b]
+
+def escValue (v : Bytes) : Bytes := v.flatMap escByte
+
+def renderHdrPair (p : Bytes × Bytes) : Bytes := p.1 ++ 0x3d :: escValue p.2
+
+def renderHdrs (ps : List (Bytes × Bytes)) : Bytes := ((ps.map renderHdrPair).intersperse [0x2c]).flatten
+
+/-- EXACT well-formedness of a pair: the name is an HTTP token (non-empty, token characters only) and the value has no
+leading or trailing ASCII white space. Nothing else is required — any byte may occur inside a value. -/
+def hdrWF (p : Bytes × Bytes) : Bool := validKey p.1 && trimSpace p.2 == p.2
+
+/-- the map a pair list denotes: later pairs replace earlier ones with the same name -/
+def mapOf (ps : List (Bytes × Bytes)) : Hdrs := ps.foldl (fun m p => hInsert p.1 p.2 m) []
+
 end Otel.C20.Spec
